@@ -94,6 +94,8 @@ def run(chk):
     libz_agree = 0
     for i, ((kind, f, d), t) in enumerate(zip(meta, impl)):
         exp = f['content']
+        if f.get('ambiguous'):
+            continue          # dictionary referenced after a window's worth of output: only the model tie applies
         got = delivered(t)
         failed = any(x.endswith(':err') for x in t if x[0] in 'IBZ' or x.startswith('force'))
         rep = {'component': kind, 'program': lines[i][:400000], 'features': f.get('features'), 'params': f.get('params')}
